@@ -111,8 +111,10 @@ def generate(prop, seed, tier='quick'):
         op = gen.gen_op(rng, kind, len(pool), opts)
         op.pop('from_key', None)
         op.setdefault('c', rng.randrange(len(pool)))
-        if kind == 'add_pack' and rng.random() < 0.1:
-            op['mass'] = 1000 + rng.randint(0, 60)  # one call crossing the library's 1000-row granularity
+        if kind == 'add_pack' and rng.random() < 0.1 and not any(o.get('mass') for o in pops):
+            # one call crossing the library's 1000-row granularity (at most one per case: with pack_size_target=1 every
+            # object is a pack file of its own, which the backup then copies one by one)
+            op['mass'] = 1000 + rng.randint(0, 60)
             op['api'] = 'objects'
         pops.append(op)
     actors.append({'name': 'p', 'role': 'packer', 'ops': pops})
@@ -162,8 +164,10 @@ def packwriter_main(world, side, shared, spec, lib):
                 before = set(pside.model)
                 if op['op'] in ('add_loose', 'add_pack'):
                     # make the contents known as in flight before the call
-                    for cidx in op.get('cs', [op.get('c', 0)]):
-                        data = world.content(cidx)
+                    cidxs = list(op.get('cs', [op.get('c', 0)])) + [c for batch in op.get('pending', []) for c in batch]
+                    datas = [world.content(cidx) for cidx in cidxs]
+                    datas += [b'mass-%d-%d' % (op.get('seed', 0), i) for i in range(op.get('mass', 0))]
+                    for data in datas:
                         shared.inflight[hashlib.new(side.hash_type, data).hexdigest()] = data
                 pworld.step(op)
                 for key in set(pside.model) - before:
@@ -243,7 +247,9 @@ def execute(case):  # pylint: disable=too-many-locals,too-many-statements,too-ma
                 shared.acked = dict(side.model)
                 shared.inflight = dict(side.model)
                 rng = random.Random(seed ^ 0xC15)
-                sched = Scheduler(SIM, rng, policy=tuple(case['policy']), max_steps=30000, replay=case.get('decisions'))
+                # the cap only stops a runaway schedule; it grows with the one thing that legitimately makes runs long
+                mass = sum(op.get('mass', 0) for actor in case['actors'] for op in actor['ops'])
+                sched = Scheduler(SIM, rng, policy=tuple(case['policy']), max_steps=30000 + 120 * mass, replay=case.get('decisions'))
                 dest = os.path.join(root, 'bk')
                 os.makedirs(dest)
                 state = {'in_backup': False}
